@@ -513,6 +513,12 @@ func feedReader(kind string, in []byte, dict int) (outcome, violation, what stri
 		k := 0
 		src.Next = func(max int) int { k++; return 1 + (k*7)%13 }
 	}
+	if len(in)%7 == 3 {
+		// a source that now and then returns (0, nil) for a non-empty buffer - legal for an
+		// io.Reader (an io.Pipe whose writer does an empty Write behaves so); finitely often
+		// here, so a reader that retries still terminates
+		src.ZeroNil = func(call int) bool { return call < 4000 && (call*2654435761>>7)%5 == 0 }
+	}
 	if dict < 4096 {
 		dict = 4096
 	}
